@@ -601,6 +601,8 @@ class AttrSpec:
         self.__value = 0 | _HIGH_88_COLOR * (colors == 88) | _HIGH_TRUE_COLOR * (colors == 2**24)
         self.__set_foreground(fg)
         self.__set_background(bg)
+        # only needed while parsing: equal specifications compare equal whatever depth they were written for
+        self.__value &= ~_HIGH_TRUE_COLOR
         if self.colors > colors:
             raise AttrSpecError(
                 f"foreground/background ({fg!r}/{bg!r}) require more colors than have been specified ({colors:d})."
